@@ -55,17 +55,19 @@ HasB(ty) == ty \in {"shares", "keys"}
 PartB(ty) ==
     CASE ty = "shares" -> [extra : Extras, slot : {"ok", "huge"}, txp : {"ok", "big", "huge"}, sig : SigQ \cup {"empty"}]
       [] ty = "keys"   -> [extra : Extras, slot : {"ok", "huge"}, txp : {"ok", "big", "huge"},
-                           signers : {"good", "none", "fewer", "more", "oor", "dup", "unordered"},
+                           signers : {"good", "none", "fewer", "more", "dup", "unordered"},
+                           lastidx : {"in", "n", "n1", "p31", "p32", "p63m1", "p63", "p64m1"},
                            nsigs : {"eq", "none", "fewer", "more"}, sigq : SigQ]
 DevB(ty, own, b) ==
     CASE ty = "shares" -> B(b.extra # own) + B(b.slot # "ok") + B(b.txp # "ok") + B(b.sig # "valid")
-      [] ty = "keys"   -> B(b.extra # own) + B(b.slot # "ok") + B(b.txp # "ok") + B(b.signers # "good") + B(b.nsigs # "eq") + B(b.sigq # "valid")
+      [] ty = "keys"   -> B(b.extra # own) + B(b.slot # "ok") + B(b.txp # "ok") + B(b.signers # "good") + B(b.lastidx # "in") + B(b.nsigs # "eq") + B(b.sigq # "valid")
 
 Merge(ty, a, b) ==
     CASE ty = "shares" -> [ty |-> ty, inst |-> a.inst, set |-> a.set, snd |-> a.snd, ents |-> a.ents, idlen |-> a.idlen,
                            extra |-> b.extra, slot |-> b.slot, txp |-> b.txp, sig |-> b.sig]
       [] ty = "keys"   -> [ty |-> ty, inst |-> a.inst, set |-> a.set, ents |-> a.ents, idlen |-> a.idlen,
-                           extra |-> b.extra, slot |-> b.slot, txp |-> b.txp, signers |-> b.signers, nsigs |-> b.nsigs, sigq |-> b.sigq]
+                           extra |-> b.extra, slot |-> b.slot, txp |-> b.txp, signers |-> b.signers, lastidx |-> b.lastidx,
+                           nsigs |-> b.nsigs, sigq |-> b.sigq]
 Whole(ty, a) ==
     CASE ty = "eonpk" -> [ty |-> ty, inst |-> a.inst, pk |-> a.pk, sig |-> a.sig, big |-> a.big]
       [] ty = "trigger" -> [ty |-> ty, inst |-> a.inst, block |-> a.block, sig |-> a.sig, idn |-> a.idn]
